@@ -108,12 +108,15 @@ def overlayIsNoop (base over : SMap) : Bool :=
   over.all (fun e => SMap.get? base e.k == some e.v)
 
 /-- `compareWithExtendedDaemonsetSettingOverwrite`: re-applying the setting's resource values to
-the pod's containers (first setting container with the same name) changes nothing. -/
+the pod's containers (first setting container with the same name) changes nothing.  Containers that
+a well-formed node override annotation governs are skipped (F4 repair): at creation the annotation
+wins over the setting, so the setting's values are not expected on them. -/
 def compareSettingOverwrite (p : Pod) (ni : NodeItem) : Bool :=
   match ni.setting with
   | none => true
   | some s =>
     p.containers.all (fun c =>
+      if ni.node.overrides.any (fun o => o.container == c.name && o.ok) then true else
       match s.containers.find? (fun c2 => c2.name == c.name) with
       | some c2 => overlayIsNoop c.res.limits c2.res.limits && overlayIsNoop c.res.requests c2.res.requests
       | none => true)
